@@ -52,3 +52,41 @@ NTT_AST_TB = ("source-level tie of the scalar transform kernels (arithmetic bloc
               "sites listed under translators.gen_ntt_ast.ub_wrap_assumed; unsigned->signed conversion modular); the loop structure, the "
               "table-pointer advance and the bit reversal are NOT translated (hand model + differential stream); the TABLES the transforms read are tied to "
               "core::initialize() / core::prep_wtab by tools/gen_init_ast.py (Nfl.C06Ast.tables_ast: generated builder = hand model's initTables)")
+
+
+# ---- loop structure of the scalar transform (appended): the three generators in dependency order
+_translators_ntt_blocks = translators_ntt
+
+
+def translators_ntt(repo):
+    """source-level tie of the SCALAR transform, blocks AND loops: gen_ntt_ast.py (straight-line blocks, Generated/NttAst.lean),
+    gen_permut_ast.py (permut.hpp: unrolled template recursion and table builder, Generated/PermutAst.lean) and gen_nttloop_ast.py
+    (ntt_loop<serial>::run, core::ntt, core::inv_ntt with pointers as (array, offset), `degree` a parameter, the blocks called —
+    Generated/NttLoopAst.lean; index expressions run for every degree 2^1..2^15: bounds, shift counts, loop-variable wrap) are re-run
+    on every check; the equalities with the hand model for every degree (Proofs/NttLoopAstEq.lean, PermutAstEq.lean,
+    Properties/C02LoopAst.lean) and the end-to-end C02/C01 statements about the translated transform are re-checked by `lake build`."""
+    out = _translators_ntt_blocks(repo)
+    for name in ("gen_permut_ast", "gen_nttloop_ast"):
+        r = cl.run(["python3", os.path.join(cl.HERE, name + ".py"), "--repo", repo])
+        info = {"ok": r.returncode == 0}
+        if r.returncode != 0:
+            info["err"] = (r.stdout + r.stderr)[-2000:]
+        else:
+            try:
+                info.update(json.loads(r.stdout.strip().splitlines()[-1]))
+                info.pop("node_kinds", None)
+            except Exception as e:
+                info["ok"] = False
+                info["err"] = "unparsable summary: %s" % e
+        out[name] = info
+    return out
+
+
+NTT_AST_TB = NTT_AST_TB.replace(
+    "; the loop structure, the table-pointer advance and the bit reversal are NOT translated (hand model + differential stream)", "") + (
+    "; loop structure (tools/gen_nttloop_ast.py, gen_permut_ast.py): lean/NflVerif/Model/CSemLoop.lean and CSemPermut.lean (a pointer is "
+    "(array, offset), exact pointer arithmetic, out-of-range read = 0 / write dropped — excluded by the translator's concrete run of the "
+    "index expressions for the degrees 2^1..2^15 only; canonical `for` loops as folds; `1 << w` in int as wrap-around, outside the proved "
+    "range k <= 32), distinct pointer parameters are distinct arrays, the r_loop/r_set template recursion is read off the instantiated "
+    "specialisations of degree 16 and 64, permut_compute's idx_type is uint16_t (degrees 2^11..2^15), the element-wise twist "
+    "(mulShoupList) and core::initialize's tables stay the hand model's")
